@@ -1085,4 +1085,35 @@ theorem accepted_size {ts : List Term} {la : Nat} {o : Out} (h : allocate ts la 
   obtain ⟨rfl, hfit⟩ := allocate_some h
   exact ⟨(layout_size ts la).1, hfit.1, layout_lens ts la⟩
 
+/-! ### non-vacuity: concrete groups are accepted, laid out as the real code lays them out, and
+the limits are hit exactly where the theorems say -/
+
+/-- a directly addressed terminal, an Aerotech-style one (packet sizes 20/30) and an FMMU terminal -/
+def exTerms : List Term :=
+  [⟨1, 4, 2, 0x1100, 0x1000, true, .direct⟩, ⟨2, 100, 200, 0x1100, 0x1000, true, .aero 20 30⟩,
+   ⟨3, 4, 2, 0x1100, 0x1000, true, .fmmu⟩]
+
+/-- (sm, pdo_assign, size, fmmu_maps) per terminal, as the real `SyncGroup.allocate()` produces them -/
+example : (allocate exTerms 4096).map (fun o => o.regions.map (·.map fun r => (r.sm, r.start, r.n, r.logical))) =
+    some [[(3, 26, 4, none), (2, 42, 2, none)], [(3, 124, 20, some 4096), (2, 69, 30, none)],
+          [(3, 144, 4, some 4116), (2, 160, 2, some 6144)]] := by decide
+example : (allocate exTerms 4096).map (fun o => (o.f.pkt.size, o.f.pkt.dgrams.map (·.len), o.f.inPos, o.f.outPos)) =
+    some (164, [4, 2, 1, 30, 1, 24, 2], 114, 150) := by decide
+example : needSize exTerms = 164 ∧ needCount exTerms = 7 := by decide
+/-- a read-only terminal gets no OUT region, an empty sync manager none at all -/
+example : (allocate [⟨1, 4, 2, 0, 0, false, .fmmu⟩, ⟨2, 0, 0, 0, 0, true, .direct⟩] 4096).map
+    (fun o => o.regions.map (·.map fun r => (r.sm, r.start, r.n, r.logical))) = some [[(3, 26, 4, some 4096)], []] := by decide
+/-- the largest single FMMU input that fits, and the first that does not -/
+example : (allocate [⟨1, 1472, 0, 0, 0, false, .fmmu⟩] 4096).isSome = true ∧
+    allocate [⟨1, 1473, 0, 0, 0, false, .fmmu⟩] 4096 = none ∧ maxData = 1472 := by decide
+/-- fifteen datagrams fit, sixteen do not -/
+example : (allocate (List.replicate 15 ⟨1, 1, 0, 0, 0, false, .direct⟩) 4096).isSome = true ∧
+    allocate (List.replicate 16 ⟨1, 1, 0, 0, 0, false, .direct⟩) 4096 = none := by decide
+/-- three groups on one master; the middle one is rejected only in `append_fmmu`, after it has
+consumed window 0x2000, so the third group gets 0x3000 -/
+example : ((allocGroups [exTerms, [⟨1, 1473, 0, 0, 0, false, .fmmu⟩], exTerms] (Master.simple 0)).map
+    (·.map fun o => (o.f.logIn, logSpans o))) =
+    [some (4096, [(4096, 4116), (4116, 4120), (6144, 6146)]), none,
+     some (12288, [(12288, 12308), (12308, 12312), (14336, 14338)])] := by decide
+
 end Ebv.C18
